@@ -310,29 +310,27 @@ func copyFileContents(src, dst string) error {
 		return err
 	}
 	defer srcFile.Close()
-	// we remove dst to avoid override the hard link file content which may affect the origin linked file
-	err = os.Remove(dst)
-	if err != nil {
-		if !os.IsNotExist(err) {
-			return err
-		}
-	}
-	dstFile, err := os.Create(dst)
+	// copy to a temp file and rename it, so the dst is never a partial copy if crashed while copying.
+	// The rename replaces the dst without touching the content of the old file,
+	// which may be a hard link of the origin file.
+	tmpDst := dst + ".copytmp"
+	dstFile, err := os.Create(tmpDst)
 	if err != nil {
 		return err
 	}
-	defer func() {
-		cerr := dstFile.Close()
-		if err == nil {
-			err = cerr
-		}
-	}()
-
-	if _, err = io.Copy(dstFile, srcFile); err != nil {
+	_, err = io.Copy(dstFile, srcFile)
+	if err == nil {
+		err = dstFile.Sync()
+	}
+	cerr := dstFile.Close()
+	if err == nil {
+		err = cerr
+	}
+	if err != nil {
+		os.Remove(tmpDst)
 		return err
 	}
-	err = dstFile.Sync()
-	return err
+	return os.Rename(tmpDst, dst)
 }
 
 func CopyFile(src, dst string, override bool) error {
